@@ -17,13 +17,19 @@
      `null` property, and the trace node has no `null` environment;
    * `effective_fixed_point`: a node with those marks and no `$include` at any includable object is
      returned unchanged by the whole pipeline, in any world;
-   * `normalisation_idempotent`, `null_reset_removed`.
-  Not proved (recorded): that the output of `expand3` has no `$include` left and no alias name / `$inherit`
-  inside field types (so `expand3 (expand3 d) = expand3 d` is proved only through `effective_fixed_point`'s
-  hypotheses, which the check evaluates on every real effective document); equality of generated files is
-  an implementation-side oracle.
+   * `normalisation_idempotent`, `null_reset_removed`;
+   * `inclusion_stage_leaves_no_include`, `inclusion_stage_idempotent`, `inclusion_stage_keys_distinct`: for every
+     world and node whose mappings hold each key at most once (what PyYAML loads), whatever the inclusion stage
+     returns has no `$include` at any includable object, holds each key once at every includable object, and is
+     returned unchanged by a second run of the stage in any world (Proofs/NoInclude.lean; the hypothesis is
+     necessary: with a key listed twice the unprocessed second occurrence can carry an `$include` through).
+  Not proved (recorded): that the three later stages keep the result free of `$include` and that no alias name /
+  `$inherit` is left inside field types (so `expand3 (expand3 d) = expand3 d` is proved only through
+  `effective_fixed_point`'s hypotheses, which the check evaluates on every real effective document); equality of
+  generated files is an implementation-side oracle.
 -/
 import BVM.Proofs.Fixed
+import BVM.Proofs.NoInclude
 namespace BVM
 
 theorem normalisation_idempotent (y : Y) : normProps (normProps y) = normProps y := normProps_idem y
@@ -113,6 +119,30 @@ theorem effective_fixed_point (W : World) (fuel : Nat) (cfg trm tt : KVs) (bo : 
     (h : Effective cfg trm tt bo) (hfuel : 4 ≤ fuel) : expand3 W fuel cfg = .ok cfg :=
   expand3_fixed W fuel cfg trm tt bo h hfuel
 
+/-- **the inclusion stage leaves no inclusion behind**: for every world whose files, and every node which,
+    hold each mapping key at most once (`Y.dk`: anything PyYAML loads), whatever `procInclude` returns for an
+    object of kind `kd` has no `$include` property at any includable object below it (and every present child
+    has the shape its kind requires) -/
+theorem inclusion_stage_leaves_no_include (W : World) (hW : W.dk) (fuel : Nat) (stack : Stack) (kd : Kind)
+    (y y' : Y) (hdk : y.dk = true) (h : procInclude W fuel stack kd y = .ok y') :
+    includeFree kd.rank kd y' = true :=
+  good_includeFree kd.rank kd y' (Nat.le_refl _) (procInclude_good W hW fuel stack kd y y' hdk h kd.rank)
+
+/-- …so running the inclusion stage again on its result, in *any* world, returns it unchanged -/
+theorem inclusion_stage_idempotent (W W' : World) (hW : W.dk) (fuel fuel' : Nat) (stack stack' : Stack) (kd : Kind)
+    (y y' : Y) (hdk : y.dk = true) (h : procInclude W fuel stack kd y = .ok y') (hfuel : kd.rank ≤ fuel') :
+    procInclude W' fuel' stack' kd y' = .ok y' :=
+  procInclude_free W' fuel' stack' kd y'
+    (includeFree_le kd.rank fuel' kd y' hfuel (inclusion_stage_leaves_no_include W hW fuel stack kd y y' hdk h))
+
+/-- the result of the inclusion stage holds each key at most once at every includable object -/
+theorem inclusion_stage_keys_distinct (W : World) (hW : W.dk) (fuel : Nat) (stack : Stack) (kd : Kind)
+    (y : Y) (m' : KVs) (hdk : y.dk = true) (h : procInclude W fuel stack kd y = .ok (.map m')) :
+    (kvKeys m').Nodup := by
+  have := procInclude_good W hW fuel stack kd y _ hdk h 1
+  simp only [Good] at this
+  exact this.2.1
+
 /-! ### non-vacuity -/
 
 def c11Doc : KVs :=
@@ -148,6 +178,30 @@ example : ∃ trm tt bo, Effective c11Eff trm tt bo := by
   refine ⟨_, _, .str "little-endian", ⟨rfl, rfl, by decide +kernel, by decide +kernel, by decide +kernel,
     by decide +kernel, rfl, by decide +kernel, by decide +kernel⟩⟩
 
+/-- the world and the document of the example meet the distinct-keys hypothesis, and the inclusion stage succeeds on it -/
+example : c11W.dk ∧ (Y.map c11Doc).dk = true := by
+  refine ⟨?_, by decide +kernel⟩
+  intro d hd f hf
+  simp only [c11W, List.mem_singleton] at hd
+  subst hd
+  simp only [List.mem_singleton] at hf
+  subst hf
+  decide +kernel
+
+example : ∃ tr tr1, kvGet "trace" c11Doc = some tr ∧ procInclude c11W 32 [] .trace tr = .ok tr1 ∧
+    includeFree 4 .trace tr1 = true := by
+  refine ⟨_, _, rfl, (FR.isOkWith_iff _ _).mp (by decide +kernel : (procInclude c11W 32 [] .trace _).isOkWith
+    (.map [("type", .map [("uuid", .null),
+      ("data-stream-types", .map [("d", .map [("$is-default", .bool true), ("event-record-types", .map [("e", .map [
+          ("log-level", .str "WARN"),
+          ("payload-field-type", .map [("class", .str "struct"), ("members", .seq [
+              .map [("x", .str "b")],
+              .map [("y", .map [("field-type", .map [("$inherit", .str "u8"), ("alignment", .null)])])]])])])])])]),
+      ("native-byte-order", .str "le"),
+      ("$field-type-aliases", .map [("u8", .map [("class", .str "uint"), ("size", .int 8), ("alignment", .int 16)]),
+                                    ("b", .str "u8")]),
+      ("$log-level-aliases", .map [("WARN", .int 4)])])]) = true), by decide +kernel⟩
+
 example : expand3 { dirs := [] } 4 c11Eff = .ok c11Eff := (FR.isOkWith_iff _ _).mp (by decide +kernel)
 
 end BVM
@@ -157,3 +211,6 @@ end BVM
 #print axioms BVM.no_null_property_left
 #print axioms BVM.effective_marks
 #print axioms BVM.effective_fixed_point
+#print axioms BVM.inclusion_stage_leaves_no_include
+#print axioms BVM.inclusion_stage_idempotent
+#print axioms BVM.inclusion_stage_keys_distinct
